@@ -132,7 +132,12 @@ def _run(tape, clock):
         if not R.recording_in_faithful_domain(rec):
             run.probe('recording_outside_faithful_domain')
             return run
-        rep = R.replay_once(spec2, run, store.open(read_only=True), rec.rec_id, overrides=overrides, sent=True)
+        cas2 = store.open(read_only=True)
+        recorder2 = TapeRecorder(cas2)
+        if tape.draw(3) == 2:
+            # the replaying recorder has a history: an earlier replay failed after sending some outputs
+            R.failing_replay(spec, run, tape, cas2, rec.rec_id, recorder2)
+        rep = R.replay_once(spec2, run, cas2, rec.rec_id, overrides=overrides, sent=True, recorder=recorder2)
         if rep.outcome.kind != 'return':
             run.violate('replay_completes', 'play-raised:%s' % type(rep.outcome.exc).__name__,
                         "play() of P' raised %r" % (rep.outcome.exc,))
